@@ -22,7 +22,8 @@ EXPLANATION = ("all outcome classes of assemble() arise from one symbolic overha
                "position; purity is a snapshot equality asserted on every path")
 ASSUMPTIONS = [
     "modules/vector expose symbolic overhangs; fragments come from the real target_sequence() on pre-set match spans",
-    "faults are exceptions raised by a fragment extraction (InvalidSequence or RuntimeError)",
+    "faults: an exception raised by a fragment extraction (InvalidSequence or RuntimeError), or a citation qualifier that "
+    "cannot be dereferenced (out-of-range index / malformed text) placed after a well-formed one in a symbolic element",
 ]
 N = 12
 SP = module_spans(2, 4, 8, 10)
@@ -32,7 +33,7 @@ def bounds(tier):
     return dict(modules_max=tier_pick(tier, 2, 3), fault_positions="none, each module, vector")
 
 
-def _build(ctx, st, P):
+def _build(ctx, st, P, bad=None):
     Mod, Vec = sliced_classes(st)
     mk = ctx.mk
     m = P["m"]
@@ -57,6 +58,9 @@ def _build(ctx, st, P):
         ann = {"topology": "circular", "organism": "x"}
         if P["refs"] or i == 0:
             ann["references"] = [ref]
+            if bad is not None and bad[0] == i:
+                # a well-formed citation followed by one that cannot be dereferenced
+                f1.qualifiers["citation"] = ["[1]", "[7]"] if bad[1] == 2 else ["[1]", "see ref. 1"]
         else:
             f1.qualifiers.pop("citation")
         recs.append(st.record.CircularRecord(st.Seq("ACGTTGCAAGCT"), id="el%d" % i, name="n%d" % i, description="d",
@@ -88,20 +92,24 @@ def ob_pure(ctx):
     st = ctx.stack
     P = ctx.P
     m = P["m"]
-    vec, mods, recs = _build(ctx, st, P)
     fault = ctx.mk.pick("fault", m + 2)
-    kind = ctx.mk.pick("fault_kind", 2) if fault else 0
+    kind = ctx.mk.pick("fault_kind", 4) if fault else 0
+    data_fault = fault and kind >= 2 and (P["refs"] or fault == 1)
+    vec, mods, recs = _build(ctx, st, P, bad=(fault - 1, kind) if data_fault else None)
     exc = None
-    if fault:
-        exc = st.errors.InvalidSequence(recs[fault - 1], details="became invalid") if kind == 0 else RuntimeError("boom")
+    if fault and not data_fault:
+        exc = st.errors.InvalidSequence(recs[fault - 1], details="became invalid") if kind % 2 == 0 else RuntimeError("boom")
         (mods + [vec])[fault - 1].fail_exc = exc
     before = [snapshot(r) for r in recs]
     o1 = _call(st, vec, mods)
     ctx.observe("kind", o1["kind"])
     ctx.witness(o1["kind"].split(":")[0])
     ctx.witness("fault-hit", o1["kind"].startswith("raised:") or (o1["kind"] == "InvalidSequence" and fault > 0))
-    ctx.require(o1["kind"] in ("product", "InvalidSequence", "DuplicateModules", "MissingModule", "raised:RuntimeError"),
-                "undocumented-outcome:" + o1["kind"])
+    allowed = ["product", "InvalidSequence", "DuplicateModules", "MissingModule", "raised:RuntimeError"]
+    if data_fault:
+        allowed = ["InvalidSequence", "DuplicateModules", "raised:IndexError", "raised:ValueError"]
+        ctx.witness("citation-fault-hit", o1["kind"].startswith("raised:"))
+    ctx.require(o1["kind"] in allowed, "undocumented-outcome:" + o1["kind"])
     after = [snapshot(r) for r in recs]
     for i, (a, b) in enumerate(zip(before, after)):
         ctx.require(snap_equal(a, b), "input-%d-changed-after-%s" % (i, o1["kind"]))
@@ -111,7 +119,10 @@ def ob_pure(ctx):
         ctx.require(snap_equal(a, b), "input-%d-changed-after-second-call" % i)
     if fault:
         # retry on the same objects once the fault is gone == first call on fresh copies
-        (mods + [vec])[fault - 1].fail_exc = None
+        if data_fault:
+            recs[fault - 1].features[0].qualifiers["citation"][:] = ["[1]"]
+        else:
+            (mods + [vec])[fault - 1].fail_exc = None
         o3 = _call(st, vec, mods)
         saved = ctx.mk
         ctx.mk = _Replay(saved)
